@@ -128,9 +128,11 @@ func (handler *HeadersHandler) Handle(ctx context.Context, m wire.Message) ([]wi
 		}, "Header not next")
 
 		// Check if we already have this block. The block processor takes a block out of the
-		// requests before it adds it to the block repository, so it can be in neither.
-		if handler.blocks.Contains(hash) || handler.state.BlockIsRequested(hash) ||
-			handler.state.BlockIsToBeRequested(hash) || handler.state.BlockIsProcessing(hash) {
+		// requests before it adds it to the block repository, so it can be in neither. It moves a
+		// block from to be requested, to requested, to processing, to the block repository, so the
+		// pending states are checked in one step and before the block repository, or a block that
+		// moves on in between is taken for a fork and requested again.
+		if handler.state.BlockIsPending(hash) || handler.blocks.Contains(hash) {
 			continue
 		}
 
